@@ -19,7 +19,9 @@ func (al *ArrayLiteral) String() string {
 
 	elements := []string{}
 	for _, el := range al.Elements {
-		elements = append(elements, el.String())
+		if el != nil {
+			elements = append(elements, el.String())
+		}
 	}
 
 	out.WriteString("[")
